@@ -724,7 +724,14 @@ impl Report {
             "violations": new_keys.len(),
         });
         let _ = std::fs::create_dir_all("/verif/evidence");
-        let evp = format!("/verif/evidence/{}.json", self.property);
+        // experiments (other seeds, seeded changes applied to /repo) write their evidence aside
+        let evp = match std::env::var("VERIF_EVIDENCE_DIR") {
+            Ok(d) => {
+                let _ = std::fs::create_dir_all(&d);
+                format!("{}/{}.json", d, self.property)
+            }
+            Err(_) => format!("/verif/evidence/{}.json", self.property),
+        };
         if let Err(e) = std::fs::write(&evp, serde_json::to_string_pretty(&ev).unwrap()) {
             eprintln!("cannot write evidence {}: {}", evp, e);
             return 2;
